@@ -51,7 +51,7 @@ def frame_cols(df, intern):
 
 def run(out: Outcome, drv):
     sc.install_probes()
-    n = 80 if out.tier == "quick" else 1500
+    n = 250 if out.tier == "quick" else 1500
     out.rule = ("PandasStream runs over generated tables whose stream ids include characters illegal in CF names (dash, dot, space, "
                 "slash, leading digit / underscore, non-ASCII) and configs of 1..3 contexts / 1..3 tests; PandasStore.save with all four "
                 "write_data / write_axes combinations and include / exclude lists over stream ids, test names and function objects; "
